@@ -5,7 +5,7 @@ Case (plain JSON)::
 
     {"ir":   template-set IR of vt/gen/tsets.py (kind "inherit" or "modules") | None,
      "data": [d1, d2]                       two data assignments for the templates of the IR,
-     "prog": None | {"prog": G-stmt program (vt/gen/stmt.py), "data": [p1, p2]}
+     "prog": None | {"prog": G-stmt program (vt/gen/stmt.py), "data": [p1, p2], "rename": {identifier: replacement} | absent}
                                             -> templates "prog" (the program) and "progu" (imports / includes it),
      "raw":  None | {"templates": {name: source}, "data": [r1, r2], "broken": [names with a syntax error]}
                                             hand-written sources (feature snippets, replays),
@@ -57,7 +57,8 @@ PID = "C31"
 LEVEL = "exploration"
 RULE = (
     "Hypothesis-generated template sets: a G-inherit hierarchy or a G-modules library/user set (vt/gen/tsets.py), in "
-    "a third of the cases plus a G-stmt program template with an importing/including wrapper, plus 0-5 hand-written "
+    "a third of the cases plus a G-stmt program template (half of them with all identifiers renamed into ASCII / keyword / "
+    "generated-code-like / dunder / non-ASCII names) with an importing/including wrapper, plus 0-5 hand-written "
     "feature snippets (filters, tests, macros with varargs/caller, call blocks, recursive loops, autoescape sections, "
     "namespaces, trans blocks, do/loopcontrols tags, self/super); template names optionally renamed to path-like, "
     "non-ASCII, brace and blank containing names; compiled with compile_templates(zip=None|'stored'|'deflated') into a "
@@ -108,9 +109,9 @@ def _deep_rename(x, ren):
     return x
 
 
-def _wrapper_source(prog, pname):
+def _wrapper_source(prog, pname, rename=None):
     """A user of the program template: imports its macros (cached module and with context) and includes it."""
-    macros = sorted({s[1] for s in prog if s[0] == "macro"})
+    macros = sorted({(rename or {}).get(s[1], s[1]) for s in prog if s[0] == "macro"})
     parts = ["{%% import '%s' as P %%}" % pname, "{{ P }}|"]
     parts.append("{%% for q in [1, 2] %%}{%% include '%s' %%}{%% endfor %%}|" % pname)
     parts.append("{%% include '%s' without context %%}|" % pname)
@@ -141,10 +142,11 @@ def build_sources(case):
         globs = {}
     if case.get("prog"):
         pname, uname = ren.get("prog", "prog"), ren.get("progu", "progu")
-        sources[pname] = G.print_program(case["prog"]["prog"])
-        sources[uname] = _wrapper_source(case["prog"]["prog"], pname)
+        pren = case["prog"].get("rename") or None
+        sources[pname] = G.print_program(case["prog"]["prog"], pren)
+        sources[uname] = _wrapper_source(case["prog"]["prog"], pname, pren)
         group[pname] = group[uname] = "prog"
-        datasets["prog"] = case["prog"]["data"]
+        datasets["prog"] = [G.rename_data(d, pren) for d in case["prog"]["data"]]
     if case.get("raw"):
         for name, src in case["raw"]["templates"].items():
             name = ren.get(name, name)
@@ -425,6 +427,8 @@ def check_case(case):
     labels += ["kind_" + (case["ir"]["kind"] if case.get("ir") else "none")]
     if case.get("prog"):
         labels.append("with_prog")
+        if case["prog"].get("rename"):
+            labels.append("prog_renamed")
     if case.get("raw"):
         labels.append("with_raw")
     if case.get("rename"):
@@ -596,6 +600,10 @@ SNIPPETS = [
     (None, "{{ html|replace('<', '[')|truncate(5)|center(9)|indent(2) }}{{ n|string|int|float|round(1)|abs }}{{ n|filesizeformat }}"),
     (None, "{{ none }}|{{ 2.5 }}|{{ 1 + 1 }}|{{ [1, none] }}|{{ true }}|{{ 7 }}|{{ -0.5 }}|{{ (none, 1.0) }}|{{ {'k': none} }}|{{ 'txt' }}|{{ 3 // 2 }}"),
     (None, "a{{ none }}b{{ 10 / 4 }}c{{ n }}d{{ zz }}e{{ none if flag else 1.5 }}f{{ 2 ** 3 }}g{{ items|length }}h{{ 1.0 * n }}i{{ none|default(none) }}"),
+    (None, "{% set größe = items|length %}Größe: {{ größe }} – {% for stück in items %}[{{ stück }}]{% endfor %}"
+           "{% macro preis(betrag, währung='€') %}{{ betrag }} {{ währung }}{% endmacro %}{{ preis(5, währung='CHF') }}{{ preis(n) }}Übersicht"),
+    (None, "{% with 名前 = user.name, α = n %}{{ 名前 }}{{ α + 1 }}{% endwith %}{% set ns2 = namespace(é=1) %}{% set ns2.é = ns2.é + n %}{{ ns2.é }}"
+           "{{ dict(ключ=n)|items|list }}{{ 'ß→' ~ html }}"),
     ("i18n", "{% trans %}Hello {{ n }}{% endtrans %}{% trans c=items|length %}one {{ c }}{% pluralize %}many {{ c }}{% endtrans %}{{ _('x<y') }}"),
     ("i18n", "{% trans user=user.name %}Hi {{ user }} 100%{% endtrans %}{{ gettext('%(a)s!', a=html) }}{{ ngettext('%(num)d a', '%(num)d b', n) }}"),
 ]
@@ -649,6 +657,9 @@ def _strategy(tier_sizes):
         if kind == "raw_only" or draw(st.integers(0, 2)) == 0:
             prog = draw(G.programs(max_depth=pdepth, max_nodes=pnodes, errors=draw(st.integers(0, 3)) == 0))
             case["prog"] = {"prog": prog, "data": draw(G.datas(2))}
+            if draw(st.booleans()):
+                # identifiers renamed consistently into ASCII / Python-keyword / generated-code-like / dunder / non-ASCII names
+                case["prog"]["rename"] = draw(G.renamings(prog, extra=G.VARS))
         pool = [i for i, (need, _) in enumerate(SNIPPETS) if need is None or need in flags]
         idx = draw(st.lists(st.sampled_from(pool), min_size=1 if kind == "raw_only" else 0, max_size=5, unique=True))
         if any(f.startswith("finalize") for f in flags):
